@@ -29,7 +29,8 @@ MANIFEST = dict(
     text=("Totality theorems (no Panic outcome, fuel suffices) for the modelled entry points — SemVer-family Parse and the further "
           "parsers listed in Properties/C04*.v — over ALL byte strings, with the operator/byte tables regenerated from the source so "
           "that an index past a table's real length is a failed obligation; pypi.SdistVersion and pypi.ParseWheelName with what they return "
-          "(C04_sdist_version_total/_ok/_err, C04_wheel_name_total/_ok, Properties/C04_pypifiles.v) compared value by value with Go; "
+          "(C04_sdist_version_total/_ok/_err, C04_wheel_name_total/_ok, Properties/C04_pypifiles.v) and System.Difference for all nine "
+          "systems (C04_difference_total/_maven/_family, _compare, _same, _numbers, Properties/C04_difference.v) compared value by value with Go; "
           "every exported entry point (semver, pypi, maven, schema, "
           "the three resolvers) is additionally driven with malformed inputs under recover and a watchdog, and a panic or hang is "
           "reported with the input."),
@@ -349,6 +350,53 @@ def pypi_file_names(ctx):
             ctx.nontriv(("wheel", c))
 
 
+def difference_cases(ctx):
+    """System.Difference against its model (coq/Semver/Diff.v; theorems C04_difference_* in Properties/C04_difference.v):
+    pairs that share a prefix of their numbers, differ in one component, in the prerelease tag or in the build tag only,
+    short and long versions, all nine systems"""
+    rng = ctx.rng
+    args = []
+    for _ in range(ctx.scale(3000, 80000)):
+        sysi = rng.choice([0, 1, 2, 3, 4, 5, 6, 7, 8, 3, 4])
+        a = versions.gen(rng, sysi)
+        q = rng.random()
+        if q < 0.45:
+            vs = versions.variants(rng, sysi, a) if hasattr(versions, "variants") else []
+            b = rng.choice(vs) if vs else versions.gen(rng, sysi)
+        elif q < 0.6:
+            b = a + rng.choice([b"+b1", b"+b2", b"-rc.1", b"-alpha", b".1", b".0"])
+        elif q < 0.7:
+            b = a
+        else:
+            b = versions.gen(rng, sysi)
+        if rng.random() < 0.5:
+            a, b = b, a
+        args.append([sysi, a, b])
+    impl = ctx.impl("sv_difference", [sx(x) for x in args])
+    margs, keep = [], []
+    for x, line in zip(args, impl):
+        v = parse_sx(line)
+        if v[0] == b"ok":
+            margs.append(sx([v[3], v[4]]))
+            keep.append((x, v[1], v[2]))
+    ctx.count("sv_difference:ok", len(keep))
+    ctx.count("sv_difference:err", len(args) - len(keep))
+    model = ctx.model("svm_diff", margs)
+    ctx.count("corr:svm_diff", len(margs))
+    step = max(1, len(margs) // 40)
+    lib.kernel_crosscheck(ctx, [("svm_diff", margs[i], model[i]) for i in range(0, len(margs), step)])
+    names = {0: "same", 1: "other", 2: "major", 3: "minor", 4: "patch", 5: "prerelease", 6: "build"}
+    nd = 0
+    for (x, c, d), m in zip(keep, model):
+        ctx.count("sv_difference:%s" % names.get(d, d))
+        if d not in (0, 1):
+            ctx.nontriv(("difference", sx(x)))
+        if m != '("ok" %d %d)' % (c, d):
+            nd += 1
+            if nd <= 30:
+                ctx.divergence("svm_diff", sx(x), '("ok" %d %d)' % (c, d), m)
+
+
 def byte_mutate(rng, b, k=4):
     b = bytearray(b)
     for _ in range(rng.randrange(1, k + 1)):
@@ -627,6 +675,7 @@ def run(ctx):
                 ctx.divergence("total:parse(family)", a, cx, cy)
     ctx.count("corr:total:parse(family)", len(args))
     pypi_file_names(ctx)
+    difference_cases(ctx)
 
 
 def oracle_only(ctx):
